@@ -177,6 +177,9 @@ func c19Run(c *vk.Ctx) {
 	c19ReplayStress(c)
 	// 3. metrics collectors
 	c17Concurrent(c)
+	if !c17SimultaneousFirstOpens(c) {
+		return
+	}
 	if !c19MetricsStress(c) {
 		return
 	}
